@@ -60,6 +60,7 @@ class Prop(object):
             u.append(('foreign-framing', {'recip': k}))
         if tier == 'thorough':
             u.append(('bodies', {'comp': 'ZIP', 'fmt': 'b', 'seed': seed, 'big': 4 << 20}))
+        u.append(('gpg', {}))
         return u
 
     def run_case(self, check, case):
@@ -384,6 +385,61 @@ class Prop(object):
             if oc != 'ok':
                 r.viol('foreign', dict(tags, stage='pgpy-decrypt-foreign', kind=oc, variant='+'.join(sorted(variant)) or 'plain'), case,
                        '%s (recipient %s): %s' % (label, rc, '; '.join(probs)))
+
+    def c_gpg(self, case):
+        """Messages encrypted by GnuPG 2.2.40 (every cipher, RSA / Curve25519 / P-256 recipients, passphrases with every S2K mode and hash,
+        several recipients, signed + encrypted) must decrypt under PGPy to what the reference decryptor recovers."""
+        import pgpy
+        from mc import gpgfix as G
+        r = Res()
+        if not G.available():
+            r.states = r.transitions = 1
+            r.outcomes['gpg-vectors-absent'] += 1
+            return r
+        refkeys = list(G.all_raw().values())
+        secs = {}
+        for n in G.NAMES:
+            secs[n] = pgpy.PGPKey.from_blob(G.read('key.%s.sec.gpg' % n))[0]
+        for f in G.files('enc.*') + G.files('sym.*'):
+            if case.get('only') and f != case['only']:
+                continue
+            r.states += 1
+            blob = G.binary(f)
+            pw = 'p\u00e4ssw\u00f6rd \u5bc6' if 'utf8pass' in f else G.PASS.decode()
+            want_pt, info = rmsg.decrypt(blob, refkeys, [pw.encode('utf-8')])
+            want = lit_view(want_pt)
+            tried = 0
+            m = pgpy.PGPMessage.from_blob(G.read(f))
+            cands = []
+            if f.startswith('sym.') or 'mixed' in f:
+                cands.append(('passphrase', lambda: m.decrypt(pw)))
+            for n, k in secs.items():
+                ids = {k.fingerprint.keyid} | set(k.subkeys)
+                if ids & m.encrypters:
+                    if n.startswith('P'):
+                        def dk(k=k):
+                            with k.unlock(G.PASS.decode()):
+                                return k.decrypt(m)
+                        cands.append((n, dk))
+                    else:
+                        cands.append((n, lambda k=k: k.decrypt(m)))
+            for who, fn in cands:
+                r.transitions += 1
+                try:
+                    d = fn()
+                    got = lit_view(bytes(d), True)
+                    ok = got[0] == want[0] and (got[1] or 0) == (want[1] or 0) and got[2] == want[2]
+                    why = 'plaintext differs from what the reference decryptor recovers'
+                except Exception as e:
+                    ok, why = False, repr(e)
+                r.outcomes['gpg:' + ('ok' if ok else 'failed')] += 1
+                if not ok:
+                    r.viol('gpg', {'kind': 'decrypt', 'by': 'pass' if who == 'passphrase' else 'key', 'file': f.split('.')[0] + '.' + f.split('.')[1]}, dict(case, only=f),
+                           'GnuPG-made message %s, decrypting with %s: %s' % (f, who, why))
+            if not cands:
+                r.outcomes['gpg:no-recipient'] += 1
+        r.samples.append({'gpg_messages': len(G.files('enc.*') + G.files('sym.*'))})
+        return r
 
     def c_foreign_framing(self, case):
         r = Res()
